@@ -94,6 +94,9 @@ def run_verus_part(res, cfg, src, report_extra):
         if not fid["ok"]:
             raise ToolError("fidelity check failed: " + fid["error"])
         marks = out.marks
+        for la in report.get("lost_anchor", []):
+            if la["fn"] not in [d["fn"] for d in res.demoted]:
+                res.demoted.append(la)
         mine = [m for m in marks if pid in (m.get("tags") or [])]
         # every tagged mark must live in a module we verify
         needed = sorted(set(mark_module(m) for m in mine if m["kind"] not in ("specfn", "trusted")))
@@ -163,6 +166,8 @@ def run_verus_part(res, cfg, src, report_extra):
                 res.undecided.append("unstable or resource-limited Verus failure: %s (%s)" % (oid, f["message"]))
         failures = keep
     res.fn_hashes = fn_hashes(src, report)
+    known = load_json(FNHASH_FILE, {})
+    res.changed_fns = set(fn for fn, h in res.fn_hashes.items() if fn in known and known[fn] != h)
     breakdown = verus.function_breakdown(js)
     res.log["verus_functions_checked"] = len(breakdown)
     # obligations of this property
